@@ -57,6 +57,7 @@ type cfile struct {
 	dirDurable     bool
 	durableByScrub bool // dir entry durable only thanks to a scrub sync
 	onlyScrub      bool // pending holds only all-zero (scrub) writes
+	adopted        bool // holds a batch that was never fsynced but adopted at an Open
 }
 
 type crashFS struct {
@@ -73,6 +74,7 @@ type crashFS struct {
 	idsUsed     map[uint64]string
 	dupID       string
 	faultsFired map[string]int
+	events      map[string]int // coverage counters
 	// fault modes; in force only while a counted fault is armed (faultIn >= 0):
 	failDeletes  bool // every file deletion fails, the file stays
 	failList     bool // the next directory listing fails (one-shot)
@@ -306,9 +308,21 @@ func (h *chandle) Sync() error {
 		return os.ErrNotExist
 	}
 	a := &action{kind: actSync, name: h.name, scrub: len(f.pending) > 0 && f.onlyScrub}
+	if a.scrub && f.adopted {
+		// recovery zeroed stale bytes behind an adopted batch: this fsync is the first
+		// one that batch ever gets
+		if h.fs.events == nil {
+			h.fs.events = map[string]int{}
+		}
+		h.fs.events["scrub_fsync_over_adopted_batch"]++
+		if h.fs.faultIn >= 0 {
+			h.fs.events["scrub_fsync_over_adopted_batch_fault_armed"]++
+		}
+	}
 	if !h.fs.record(a) {
 		return errInjected
 	}
+	f.adopted = false
 	f.synced = append([]byte(nil), f.data...)
 	f.pending = nil
 	if !f.dirDurable {
@@ -402,6 +416,28 @@ func (m *cmeta) SetStable(key, value []byte) error {
 }
 
 func (m *cmeta) Close() error { return nil }
+
+// adoptPending: a process restart or a Close/Open cycle without power loss. Writes
+// whose fsync failed are still in the page cache and the next Open reads them; the
+// model treats them as synced from here on (Model.adopt_disk: an I/O error followed
+// by a restart and a later power loss is outside the model). The harness does the
+// same, so that the fsync of recovery's zeroStaleTail -- issued only when stale
+// bytes of an earlier, longer failed batch lie behind the recovered chain -- is an
+// uncounted scrub fsync whether or not such an adopted batch is in the file.
+func (c *crashFS) adoptPending() int {
+	c.mu.Lock()
+	defer c.mu.Unlock()
+	n := 0
+	for _, f := range c.files {
+		if len(f.pending) > 0 && !f.onlyScrub {
+			f.synced = append([]byte(nil), f.data...)
+			f.pending = nil
+			f.adopted = true
+			n++
+		}
+	}
+	return n
+}
 
 // ---- crash images ----------------------------------------------------------
 
